@@ -16,6 +16,9 @@ Modelling decisions (each is checked by the correspondence run):
 * Go's linked lists are Lean lists (active list in order; inactive list in order of deactivation).
   A node carries the data of its ancestors (`anc`, nearest first) instead of a parent pointer.
 * out-of-range read of `items[b+1]` is the explicit outcome `panic`.
+* follows the repaired code (b48609e, e5723a8, a113cc9, 2069dec): inactive list reset after a forced
+  break, fallback breakpoints measured by `sumAfter`, deactivation without the penalty width,
+  non-positive stretch counts as unstretchable.
 * NaN is not modelled (inputs are finite; no operation of the algorithm produces NaN from finite
   inputs of moderate size).
 -/
@@ -148,7 +151,7 @@ def adjRatio (P : Params α) (lineW : α) (it : Item α) (W Y Z aw ay az : α) :
   let L0 := W - aw
   let L := if it.ty = Ty.penalty then L0 + it.width else L0
   if L < lineW then
-    if (Y - ay) == k 0 then some (P.infinity * (k 1 + (lineW - L) / lineW))
+    if Y - ay ≤ k 0 then some (P.infinity * (k 1 + (lineW - L) / lineW))
     else
       let r := (lineW - L) / (Y - ay)
       some (if r < P.infinity then r else P.infinity)
@@ -209,13 +212,16 @@ def slotDem (g : Grp α) (c : Nat) : Option α :=
   | some (some cand) => some cand.dem
   | _ => none
 
-/-- `ratio < -1 || forced`: the node leaves the active list (ratio `none` = −Inf) -/
-def deactivates (cx : Ctx α) (r : Option α) : Bool :=
-  (match r with | none => true | some r => decide (r < -(k 1 : α))) || isForced cx.P cx.it
+/-- `tooLong || forced`: the node leaves the active list (ratio `none` = −Inf). At a penalty with
+width the test is made on the line without the penalty width (a later break may still fit). -/
+def deactivates (cx : Ctx α) (a : Node α) (r : Option α) : Bool :=
+  (if cx.it.ty = Ty.penalty && !(cx.it.width == k 0) then
+      decide (cx.lineW < (cx.W - a.d.w) - (cx.Z - a.d.z))
+    else (match r with | none => true | some r => decide (r < -(k 1 : α)))) || isForced cx.P cx.it
 
 /-- `lb.activeNodes.Remove(active); lb.inactiveNodes.Push(active)` or keep -/
 def moveNode (cx : Ctx α) (a : Node α) (r : Option α) (o : MOut α) : MOut α :=
-  if deactivates cx r then { o with inact := o.inact ++ [a] } else { o with act := o.act ++ [a] }
+  if deactivates cx a r then { o with inact := o.inact ++ [a] } else { o with act := o.act ++ [a] }
 
 /-- `-1 <= ratio && ratio <= tolerance` -/
 def feasibleR (cx : Ctx α) (r : α) : Bool := decide (-(k 1 : α) ≤ r) && leTol r cx.tol
@@ -284,19 +290,29 @@ def minWidthOf (W : α) : List (Node α) → Option α → Option α
   | [], m => m
   | p :: rest, m => minWidthOf W rest (some (minOpt m (W - p.d.w)))
 
-def fallbackNodes (b : Nat) (W Y Z : α) (mw : α) : List (Node α) → List (Node α)
+def fallbackNodes (b : Nat) (width : α) (s : α × α × α) (W : α) (mw : α) : List (Node α) → List (Node α)
   | [] => []
   | p :: rest =>
     if (W - p.d.w) == mw then
-      (⟨⟨b, p.d.line + 1, 1, W, W, Y, Z, k 0, p.d.dem + k 1000⟩, p.d :: p.anc⟩ : Node α)
-        :: fallbackNodes b W Y Z mw rest
-    else fallbackNodes b W Y Z mw rest
+      (⟨⟨b, p.d.line + 1, 1, width, s.1, s.2.1, s.2.2, k 0, p.d.dem + k 1000⟩, p.d :: p.anc⟩ : Node α)
+        :: fallbackNodes b width s W mw rest
+    else fallbackNodes b width s W mw rest
 
 /-- `0 < b && lb.items[b-1].Type == BoxType` -/
 def prevIsBox (prev : Option (Item α)) : Bool :=
   match prev with
   | some p => decide (p.ty = Ty.box)
   | none => false
+
+/-- `lb.inactiveNodes = &Breakpoints{}` at the top of the iteration that follows a forced break -/
+def clearStale (P : Params α) (prev : Option (Item α)) (lb : LB α) : LB α :=
+  match prev with
+  | some p => if isForced P p then { lb with inact := [] } else lb
+  | none => lb
+
+/-- the glue's own width, stretch and shrink are added at the end of the iteration -/
+def addGlue (it : Item α) (lb : LB α) : LB α :=
+  if it.ty = Ty.glue then { lb with W := lb.W + it.width, Y := lb.Y + it.stretch, Z := lb.Z + it.shrink } else lb
 
 /-- the part of the item loop before `// do something drastic`; `none` = index out of range -/
 def itemStep (P : Params α) (items : List (Item α)) (lineW : α) (tol : Option α) (b : Nat)
@@ -305,18 +321,19 @@ def itemStep (P : Params α) (items : List (Item α)) (lineW : α) (tol : Option
   | Ty.box => some { lb with W := lb.W + it.width }
   | Ty.glue =>
     let prevBox := prevIsBox prev
-    let add (l : LB α) : LB α := { l with W := l.W + it.width, Y := l.Y + it.stretch, Z := l.Z + it.shrink }
     if prevBox then
       match rest with
       | [] => none
       | nx :: _ =>
-        if nx.ty ≠ Ty.penalty then some (add (mainLoop P items lineW tol b it rest lb)) else some (add lb)
-    else some (add lb)
+        if nx.ty ≠ Ty.penalty then some (mainLoop P items lineW tol b it rest lb) else some lb
+    else some lb
   | Ty.penalty =>
     if it.penalty < P.infinity then some (mainLoop P items lineW tol b it rest lb) else some lb
 
-/-- `// do something drastic since there is no feasible solution`; `none` = `goto START` -/
-def drastic (tol : Option α) (b : Nat) (lb : LB α) : Option (LB α) :=
+/-- `// do something drastic since there is no feasible solution`; `none` = `goto START`.
+The fallback breakpoint is measured as `mainLoop` measures a break at `b`. -/
+def drastic (P : Params α) (tol : Option α) (b : Nat) (it : Item α) (rest : List (Item α)) (lb : LB α) :
+    Option (LB α) :=
   match lb.act with
   | _ :: _ => some lb
   | [] =>
@@ -324,19 +341,22 @@ def drastic (tol : Option α) (b : Nat) (lb : LB α) : Option (LB α) :=
     else
       match minWidthOf lb.W lb.inact none with
       | none => some { lb with ovf := true }
-      | some mw => some { lb with ovf := true, act := fallbackNodes b lb.W lb.Y lb.Z mw lb.inact }
+      | some mw =>
+        let s := sumAfter P true (it :: rest) (lb.W, lb.Y, lb.Z)
+        let width := if it.ty = Ty.penalty then lb.W + it.width else lb.W
+        some { lb with ovf := true, act := fallbackNodes b width s lb.W mw lb.inact }
 
 /-- one run of the item loop (from `START:`) -/
 def passLoop (P : Params α) (items : List (Item α)) (lineW : α) (tol : Option α) :
     Nat → Option (Item α) → List (Item α) → LB α → PassRes α
   | _, _, [], lb => PassRes.done lb
   | b, prev, it :: rest, lb =>
-    match itemStep P items lineW tol b prev it rest lb with
+    match itemStep P items lineW tol b prev it rest (clearStale P prev lb) with
     | none => PassRes.panic
     | some lb1 =>
-      match drastic tol b lb1 with
+      match drastic P tol b it rest lb1 with
       | none => PassRes.restart lb1.nextTol lb1.ovf
-      | some lb2 => passLoop P items lineW tol (b + 1) (some it) rest lb2
+      | some lb2 => passLoop P items lineW tol (b + 1) (some it) rest (addGlue it lb2)
 
 def initLB (ovf : Bool) : LB α := ⟨k 0, k 0, k 0, [root], [], none, ovf⟩
 
